@@ -658,6 +658,41 @@ fn observe(bytes: &[u8]) -> String {
             Err(_) => vec![],
         },
     ));
+    // handle data stream
+    let hd = dump.get_stream::<MinidumpHandleDataStream>();
+    secs.push((
+        status(&hd),
+        match &hd {
+            Ok(l) => l
+                .iter()
+                .map(|h| {
+                    let r = &h.raw;
+                    let mut it: Item = vec![
+                        match r {
+                            RawHandleDescriptor::HandleDescriptor(_) => 1,
+                            RawHandleDescriptor::HandleDescriptor2(_) => 2,
+                        },
+                        r.handle().map(|x| *x as i128).unwrap_or(-777),
+                        r.attributes().map(|x| *x as i128).unwrap_or(-777),
+                        r.granted_access().map(|x| *x as i128).unwrap_or(-777),
+                        r.handle_count().map(|x| *x as i128).unwrap_or(-777),
+                        r.pointer_count().map(|x| *x as i128).unwrap_or(-777),
+                    ];
+                    for s in [&h.type_name, &h.object_name] {
+                        match s {
+                            Some(s) => units(s, &mut it),
+                            None => it.push(-1),
+                        }
+                    }
+                    if !h.object_infos.is_empty() {
+                        it.push(-777);
+                    }
+                    it
+                })
+                .collect(),
+            Err(_) => vec![],
+        },
+    ));
     fmt_sections(&secs)
 }
 
@@ -1048,6 +1083,33 @@ fn synth_observe(toks: &str) -> String {
     if t.i() == 1 {
         let b = t.blob();
         d = d.set_linux_proc_limits(&b);
+    }
+    // handle data (the synth writer knows the 32-byte descriptor only)
+    if t.i() == 1 {
+        let _v2 = t.i();
+        let n = t.i();
+        for _ in 0..n {
+            let h = t.u64();
+            let optstr = |t: &mut Tk| -> Option<synth::DumpString> {
+                let k = t.i();
+                if k < 0 {
+                    None
+                } else {
+                    let u: Vec<u16> = (0..k).map(|_| t.i() as u16).collect();
+                    Some(synth::DumpString::new(&String::from_utf16(&u).expect("utf16"), endian))
+                }
+            };
+            let ty = optstr(&mut t);
+            let ob = optstr(&mut t);
+            let v = t.ints(4);
+            d = d.add_handle_descriptor(synth::HandleDescriptor::new(endian, h, ty.as_ref(), ob.as_ref(), v[0] as u32, v[1] as u32, v[2] as u32, v[3] as u32));
+            if let Some(x) = ty {
+                d = d.add(x);
+            }
+            if let Some(x) = ob {
+                d = d.add(x);
+            }
+        }
     }
     let bytes = d.finish().expect("synth finish");
     observe(&bytes)
